@@ -442,6 +442,16 @@ func c11Case(m *cors.Middleware, via http.Handler, dg *delegate, configured bool
 	if fp, fpExit := headerFP(rec.h), headerFP(h.exit); fp != fpExit {
 		return &Violation{Class: "touch-after-handler", Key: "header-map", Detail: ctxs() + fmt.Sprintf(": header map at handler return %s, finally %s", fpExit, fp)}
 	}
+	// the handler's own header operations must arrive as written: replay the
+	// script on a deep copy of what the handler saw on entry (no shared backing
+	// arrays) and compare with the real map — slices the middleware installed
+	// must not overlap each other or anything else
+	expect := cloneHeader(h.entry)
+	applyOps(expect, sc.Ops)
+	applyOps(expect, sc.LateOps)
+	if got, want := headerFP(rec.h), headerFP(expect); got != want {
+		return &Violation{Class: "handler-headers-corrupted", Key: "aliasing", Detail: ctxs() + fmt.Sprintf(": the handler saw %s and applied its script; the client should get %s but gets %s (header slices installed by the middleware share memory)", headerFP(h.entry), want, got)}
+	}
 	// entry map vs pre-set map
 	if !configured {
 		if a, b := headerFP(h.entry), headerFP(presetMap); a != b {
